@@ -5,6 +5,38 @@ import json, os, subprocess
 VERIF = os.path.dirname(os.path.dirname(os.path.abspath(__file__)))
 
 CHECKS = {
+    "C02": {
+        "bins": ["client_sm", "client_loop"],
+        "category": "model_checking",
+        "text": "ClientLoop.tla models MqttState and the EventLoop (request gate, pending, clean, reconnect with and without session) against an adversarial broker with a failure possible in every state; TLC checks NoLoss/NoLostRelease exhaustively for limit 2 (v4 and v5). The model is bound to the code in both directions: TLC-generated call sequences are replayed into the real rumqttc::MqttState and rumqttc::v5::MqttState with every observable compared, and the real EventLoop (both versions) is driven over an in-memory transport under paused time by TLC-generated and seeded random stimulus scripts (limits 2 and 100) whose recorded traces TLC validates against ClientLoopTrace.tla with this property's invariants evaluated in every state.",
+        "design_ref": "DESIGN.md section 6 / C02",
+        "note": "Trusted: ClientState.tla/ClientLoop.tla as transcription of state.rs/eventloop.rs (bound by call-by-call equality replay of MqttState and by trace validation of the real EventLoop), TLC, the scripted in-memory broker of the harness. Exhaustive only for limits 2-3 and a handful of messages; limit 100 sampled by validated traces. v5 reason codes other than success and topic aliases are not modelled.",
+        "technique": "TLC model checking of ClientLoop.tla + spec->impl replay into MqttState + TLC trace validation of real EventLoop executions with the property invariants evaluated on every trace state",
+    },
+    "C07": {
+        "bins": ["client_sm", "client_loop"],
+        "category": "model_checking",
+        "text": "Same model; TLC checks id range, uniqueness among unacknowledged publishes, window bound, that the counter the gate reads never exceeds the true number of unacknowledged publishes, that channel requests are only taken through an open gate and that a pending collision is always resolvable (v4 and v5 incl. receive maximum lowered on reconnect). The model is bound to the code in both directions: TLC-generated call sequences are replayed into the real rumqttc::MqttState and rumqttc::v5::MqttState with every observable compared, and the real EventLoop (both versions) is driven over an in-memory transport under paused time by TLC-generated and seeded random stimulus scripts (limits 2 and 100) whose recorded traces TLC validates against ClientLoopTrace.tla with this property's invariants evaluated in every state.",
+        "design_ref": "DESIGN.md section 6 / C07",
+        "note": "Trusted: ClientState.tla/ClientLoop.tla as transcription of state.rs/eventloop.rs (bound by call-by-call equality replay of MqttState and by trace validation of the real EventLoop), TLC, the scripted in-memory broker of the harness. Exhaustive only for limits 2-3 and a handful of messages; limit 100 sampled by validated traces. v5 reason codes other than success and topic aliases are not modelled.",
+        "technique": "TLC model checking of ClientLoop.tla + spec->impl replay into MqttState + TLC trace validation of real EventLoop executions with the property invariants evaluated on every trace state",
+    },
+    "C10": {
+        "bins": ["client_sm", "client_loop"],
+        "category": "model_checking",
+        "text": "Same model with every broker packet kind and ids 0..limit+1; TLC checks on every transition that Incoming events equal the processed packets in order and that written packets and Outgoing announcements correspond one to one; replies to QoS1/QoS2/PUBREL and error results for unsolicited acks are part of the transcription that is bound to the code by the MqttState replay (manual acks on and off). The model is bound to the code in both directions: TLC-generated call sequences are replayed into the real rumqttc::MqttState and rumqttc::v5::MqttState with every observable compared, and the real EventLoop (both versions) is driven over an in-memory transport under paused time by TLC-generated and seeded random stimulus scripts (limits 2 and 100) whose recorded traces TLC validates against ClientLoopTrace.tla with this property's invariants evaluated in every state.",
+        "design_ref": "DESIGN.md section 6 / C10",
+        "note": "Trusted: ClientState.tla/ClientLoop.tla as transcription of state.rs/eventloop.rs (bound by call-by-call equality replay of MqttState and by trace validation of the real EventLoop), TLC, the scripted in-memory broker of the harness. Exhaustive only for limits 2-3 and a handful of messages; limit 100 sampled by validated traces. v5 reason codes other than success and topic aliases are not modelled.",
+        "technique": "TLC model checking of ClientLoop.tla + spec->impl replay into MqttState + TLC trace validation of real EventLoop executions with the property invariants evaluated on every trace state",
+    },
+    "C11": {
+        "bins": ["client_sm", "client_loop"],
+        "category": "model_checking",
+        "text": "Same model with ghosts for send order and carried-over requests; TLC checks replay-first, clean-start-drops-pending and (v4, in-order QoS1 class) retransmission order = original send order, including repeated failures during replay and id wrap-around. The model is bound to the code in both directions: TLC-generated call sequences are replayed into the real rumqttc::MqttState and rumqttc::v5::MqttState with every observable compared, and the real EventLoop (both versions) is driven over an in-memory transport under paused time by TLC-generated and seeded random stimulus scripts (limits 2 and 100) whose recorded traces TLC validates against ClientLoopTrace.tla with this property's invariants evaluated in every state.",
+        "design_ref": "DESIGN.md section 6 / C11",
+        "note": "Trusted: ClientState.tla/ClientLoop.tla as transcription of state.rs/eventloop.rs (bound by call-by-call equality replay of MqttState and by trace validation of the real EventLoop), TLC, the scripted in-memory broker of the harness. Exhaustive only for limits 2-3 and a handful of messages; limit 100 sampled by validated traces. v5 reason codes other than success and topic aliases are not modelled.",
+        "technique": "TLC model checking of ClientLoop.tla + spec->impl replay into MqttState + TLC trace validation of real EventLoop executions with the property invariants evaluated on every trace state",
+    },
     "C12": {
         "bins": ["topics"],
         "category": "exploration",
